@@ -90,6 +90,7 @@ func mergeUniverse() []*mDef {
 			{Name: "me", Type: "User"}, {Name: "posts", Args: "(filter: Filter, first: Int = 5)", Type: "[Post]"},
 			{Name: "media", Type: "[Media]"}, {Name: "now", Type: "Date"}, {Name: "named", Type: "[Named]"}, {Name: "_meta", Type: "String"}}},
 		{Kind: "type", Name: "Mutation", Fields: []mField{{Name: "touch", Args: "(id: ID!)", Type: "Post"}}},
+		{Kind: "type", Name: "Subscription", Fields: []mField{{Name: "postChanged", Args: "(id: ID!)", Type: "Post"}, {Name: "ticks", Type: "Int"}}},
 	}
 }
 
